@@ -387,7 +387,14 @@ def check_roundtrip(case):
   probes = _probes(spec)
   labels = ['drawn'] * len(case['points']) + [k for k, _ in probes]
   points = list(case['points']) + [pt for _, pt in probes]
-  trials = [vz.Trial(parameters=pt) for pt in points]
+  # boolean parameters: every other trial carries a Python bool instead of the
+  # string 'True' / 'False' (SearchSpace.contains accepts both)
+  bool_names = [p['name'] for p in spec['params'] if p['kind'] == 'BOOL']
+  if bool_names and len(points) > 1:
+    out.cls('python_bool_values')
+  trials = [vz.Trial(parameters={
+      k: ((v == 'True') if (k in bool_names and i % 2 == 1) else v)
+      for k, v in pt.items()}) for i, pt in enumerate(points)]
   n = len(trials)
   before = [{k: _pyval(v.value) for k, v in t.parameters.items()}
             for t in trials]
@@ -515,6 +522,8 @@ def check_roundtrip(case):
       L = lay[name]
       x, y = pt[name], got[name]
       if p['kind'] in ('CATEGORICAL', 'BOOL'):
+        if p['kind'] == 'BOOL' and isinstance(y, bool) and cls == 'scaler':
+          y = str(y)  # the scaler hands a categorical value back as it came
         if not (isinstance(y, str) and y == x):
           out.violate('roundtrip/value/' + p['kind'],
                       'param %r %r -> %r' % (name, x, y))
